@@ -8,6 +8,7 @@ import (
 	"sort"
 	"strconv"
 	"strings"
+	"time"
 
 	"golang.org/x/tools/go/ssa"
 )
@@ -23,6 +24,8 @@ type propDef struct {
 var props = map[string]*propDef{}
 
 func register(d *propDef) { props[d.id] = d }
+
+var progStart = time.Now()
 
 func main() {
 	repo := flag.String("repo", "/repo", "repository root")
